@@ -36,8 +36,19 @@ FAULTS = [
     ("to-num", lambda: G.call("_সংখ্যা", G.s("abc")), "runtime"),
     ("error-builtin", lambda: G.call("_এরর", G.s("নিজস্ব বার্তা ১২৩")), "runtime"),
     ("split-bad", lambda: G.call("_স্ট্রিং-স্প্লিট", G.s("a"), G.num(1)), "runtime"),
+    # the whole container-kind x index-kind table of read indexing (the error class differs per cell)
+    ("index-num-on-record", lambda: G.idx(G.var("নথি"), G.num(0)), "runtime"),
+    ("index-num-on-number", lambda: G.idx(G.var("পাঁচ"), G.num(0)), "runtime"),
+    ("index-num-on-string", lambda: G.idx(G.var("লেখা"), G.num(0)), "runtime"),
+    ("index-str-on-list", lambda: G.idx(G.var("তালিকা"), G.s("k")), "type"),
+    ("index-bool-on-list", lambda: G.idx(G.var("তালিকা"), G.b(True)), "type"),
+    ("index-str-on-number", lambda: G.idx(G.var("পাঁচ"), G.s("k")), "runtime"),
+    ("index-bool-on-record", lambda: G.idx(G.var("নথি"), G.b(True)), "type"),
+    ("index-list-on-record", lambda: G.idx(G.var("নথি"), G.var("তালিকা")), "type"),
+    ("index-bool-on-number", lambda: G.idx(G.var("পাঁচ"), G.b(False)), "runtime"),
 ]
-SETUP = [("decl", "তালিকা", G.lst(G.num(1), G.num(2), G.num(3))), ("decl", "নথি", G.rec((G.s("k"), G.num(1)), (G.s("ভিতর"), G.rec((G.s("z"), G.num(2))))))]
+SETUP = [("decl", "তালিকা", G.lst(G.num(1), G.num(2), G.num(3))), ("decl", "নথি", G.rec((G.s("k"), G.num(1)), (G.s("ভিতর"), G.rec((G.s("z"), G.num(2)))))),
+         ("decl", "পাঁচ", G.num(5)), ("decl", "লেখা", G.s("ab"))]
 
 
 def fault_stmt(pos, fe, ok_expr):
@@ -75,6 +86,12 @@ SPECIAL = [
     ("index-write-empty-index", [("rawstmt", [("তালিকা", "word"), ("[", "op"), ("]", "op"), ("=", "op"), ("১", "num"), (";", "op")])], "runtime"),
     ("write-path-missing-key", [("assign", "নথি", [G.s("নাই"), G.s("x")], G.num(1))], "runtime"),
     ("write-path-wrong-kind", [("assign", "তালিকা", [G.s("k")], G.num(1))], "runtime"),
+    ("write-path-record-number-key", [("assign", "নথি", [G.num(0)], G.num(1))], "runtime"),
+    ("write-path-on-number", [("assign", "পাঁচ", [G.num(0)], G.num(1))], "type"),
+    ("write-path-through-number", [("assign", "তালিকা", [G.num(0), G.num(0)], G.num(1))], "type"),
+    ("write-path-through-string-field", [("assign", "নথি", [G.s("k"), G.s("x")], G.num(1))], "type"),
+    ("call-number-literal", [("rawstmt", [("দেখাও", "word"), ("৫", "num"), ("(", "op"), (")", "op"), (";", "op")])], "runtime"),
+    ("call-string-literal", [("rawstmt", [("দেখাও", "word"), ("\"ক\"", "str"), ("(", "op"), ("১", "num"), (")", "op"), (";", "op")])], "runtime"),
     ("index-write-after-call-in-index", [("assign", "তালিকা", [G.call("একই", G.num(7))], G.num(1))], "runtime"),
     ("index-write-after-call-in-value", [("assign", "তালিকা", [G.num(5)], G.call("একই", G.num(1)))], "runtime"),
     ("error-builtin-with-call-argument", [("expr", G.call("_এরর", G.call("একই", G.s("ডাকের পরে"))))], "runtime"),
